@@ -1,5 +1,5 @@
 PROP = {
-    "claim": "Proof: over the Lean model of Core::update / run_interp / run_code_block / handle_interrupt with ghost counters "
+    "claim": "(machine_ok_update, machine_ok_updateBlock, machine_ok_reachable, machine_ok_facts) ONE invariant for every reachable state of the whole machine - buffer sizes, timer/DMA bookkeeping in range, the LCD on the schedule of the delivered clocks with its frame count, time conservation, at most five cycles pending - holds at power-on and is kept by every successful step of Core.update Sys.dev, instruction- or block-stepped in any order; at every such state the passage of any amount of time cannot panic, catch-up batches can be split or merged freely, and run_frame returns after at most 17556 steps. Proof: over the Lean model of Core::update / run_interp / run_code_block / handle_interrupt with ghost counters "
              "`delivered` (clocks handed to MemoryAreas::run_clock_cycles) and `charged` (machine cycles charged to the CPU) and "
              "for ANY device function (the passage of device time is a parameter of the model) and any core state: "
              "(time_inv, time_inv_blocks, time_inv_update / _run_interp / _run_code_block, time_inv_init) delivered + 4 x pending "
@@ -46,7 +46,7 @@ PROP = {
                 {"name": "c09.frame", "jit": True, "shards": {"quick": 1, "thorough": 4}}],
     "modules": ["GbVerif.Model.Core", "GbVerif.Model.Cpu", "GbVerif.Model.Interp", "GbVerif.Spec.Lcd", "GbVerif.Proofs.CoreIrq",
                 "GbVerif.Proofs.CoreCycles", "GbVerif.Proofs.CoreStep", "GbVerif.Proofs.CoreFrame", "GbVerif.Props.C06",
-                "GbVerif.Model.Sys", "GbVerif.Model.Timer", "GbVerif.Model.Lcd", "GbVerif.Proofs.InterpFrame", "GbVerif.Proofs.SysFrame"],
+                "GbVerif.Model.Sys", "GbVerif.Model.Timer", "GbVerif.Model.Lcd", "GbVerif.Proofs.InterpFrame", "GbVerif.Proofs.SysFrame", "GbVerif.Proofs.SysTotal", "GbVerif.Proofs.SysBatch", "GbVerif.Proofs.Machine", "GbVerif.Proofs.Timer", "GbVerif.Proofs.Lcd", "GbVerif.Proofs.BusIo", "GbVerif.Proofs.BusWf"],
     "exhaustive": False,
     "rule": "quick 200 / thorough 6000 generated programs (1-3 subroutines, prologue programming TMA/TIMA/TAC/STAT/LYC/IE, 3-16 blocks out of "
             "13 kinds, HALT/STOP/NOP tail loop) x 1000 / 1500 steps, per build; c09.frame: 7 fixed + 12 / 60 random (first block, "
